@@ -53,6 +53,34 @@ def library_crash(exc):
     return f"crash:{type(exc).__name__}:{mod}.{last[2]}", f"{type(exc).__name__}: {exc} (at {last[1]}:{last[3]})"
 
 
+class HangAbort(BaseException):
+    """a case body exceeded the (very generous) per-case watchdog; the search of this shard stops here"""
+
+    def __init__(self, where):
+        super().__init__(where)
+        self.where = where
+
+
+def _alarm_handler(signum, frame):
+    import inference
+
+    lib = os.path.dirname(os.path.abspath(inference.__file__)) + os.sep
+    # the innermost LIBRARY frame on the stack (harness callbacks such as recording posteriors called from a
+    # library loop are skipped); only if no library frame is active is the harness itself looping
+    where = None
+    first_harness = None
+    f = frame
+    while f is not None:
+        fn = os.path.abspath(f.f_code.co_filename)
+        if fn.startswith(lib):
+            where = fn[len(lib):].replace(os.sep, ".").removesuffix(".py") + "." + f.f_code.co_name
+            break
+        if first_harness is None and fn.startswith(VERIF_DIR + os.sep):
+            first_harness = "harness:" + os.path.basename(fn) + ":" + f.f_code.co_name
+        f = f.f_back
+    raise HangAbort(where or first_harness or "harness")
+
+
 class Inconclusive(Exception):
     """The case cannot be decided (stencil did not converge, ill-conditioned, ...)."""
 
@@ -66,7 +94,7 @@ class Sub:
 
     def __init__(self, name, strategy, body, quick, thorough, rule,
                  shards_quick=1, shards_thorough=4, weight=1.0, needs_fork=False,
-                 shrink_budget=(45, 240)):
+                 shrink_budget=(45, 240), case_timeout=(60, 240)):
         self.name = name
         self.strategy = strategy  # callable tier -> hypothesis strategy producing JSON-able case
         self.body = body  # body(case, ctx)
@@ -78,6 +106,7 @@ class Sub:
         self.weight = weight
         self.needs_fork = needs_fork
         self.shrink_budget = shrink_budget
+        self.case_timeout = case_timeout
 
     def n_examples(self, tier):
         return self.quick if tier == "quick" else self.thorough
@@ -224,6 +253,11 @@ def run_shard(prop_id, sub, tier, seed, shard, n_examples):
     harness_error = None
     shard_seed = derive_seed(seed, prop_id, sub.name, shard)
     budget = sub.shrink_budget[0 if tier == "quick" else 1]
+    timeout = sub.case_timeout[0 if tier == "quick" else 1]
+    import signal
+
+    signal.signal(signal.SIGALRM, _alarm_handler)
+    hangs = 0
     strategy = sub.strategy(tier)
     remaining = n_examples
 
@@ -245,7 +279,12 @@ def run_shard(prop_id, sub, tier, seed, shard, n_examples):
             try:
                 ctx._in_hyp = True
                 try:
-                    sub.body(case, ctx)
+                    state["current"] = case
+                    signal.alarm(timeout)
+                    try:
+                        sub.body(case, ctx)
+                    finally:
+                        signal.alarm(0)
                 except (Violation, Inconclusive):
                     raise
                 except Exception as e:
@@ -291,6 +330,22 @@ def run_shard(prop_id, sub, tier, seed, shard, n_examples):
             found.append({"key": state["best_key"], "detail": state["best_detail"], "case": state["best"]})
             excluded.add(state["best_key"])
             remaining = max(50, remaining - (ctx.examples - before))
+            continue
+        except HangAbort as h:
+            hangs += 1
+            if h.where.startswith("harness"):
+                harness_error = f"watchdog ({timeout}s) expired inside harness code at {h.where}"
+                break
+            key = f"{sub.name}:hang:{h.where}"
+            if key in known:
+                known_hits.setdefault(key, {"count": 0, "case": json.loads(canon(state.get("current"))), "detail": "watchdog"})["count"] += 1
+            else:
+                found.append({"key": key, "detail": f"no return after {timeout} s (a case of this sub-check normally takes well under a second); innermost library frame {h.where}",
+                              "case": json.loads(canon(state.get("current")))})
+            excluded.add(key)
+            remaining = max(50, remaining - (ctx.examples - before))
+            if hangs >= 2:
+                break
             continue
         except BaseException as e:  # harness error (health check, bug in the check, ...)
             if state["best_key"] is not None:
